@@ -285,6 +285,56 @@ def check(prog: Program, tier: str) -> Result:
     return res
 
 
+def _lines_put_in(tok_loops, set_name: Optional[str], s_: int, e_: int) -> Optional[set]:
+    """Elements put into the local set `set_name` inside the string-token loops for one token spanning lines s_..e_; None if the
+    statements are not of the understood kinds."""
+    if set_name is None:
+        return None
+
+    def ev(e, env):
+        if isinstance(e, ast.Constant) and isinstance(e.value, int):
+            return e.value
+        if isinstance(e, ast.Name):
+            return env[e.id]
+        if isinstance(e, ast.Subscript) and isinstance(e.slice, ast.Constant) and e.slice.value == 0 and isinstance(e.value, ast.Attribute) and e.value.attr in ("start", "end"):
+            return s_ if e.value.attr == "start" else e_
+        if isinstance(e, ast.BinOp) and isinstance(e.op, (ast.Add, ast.Sub)):
+            l, r = ev(e.left, env), ev(e.right, env)
+            return l + r if isinstance(e.op, ast.Add) else l - r
+        if isinstance(e, ast.Call) and isinstance(e.func, ast.Name) and e.func.id == "range":
+            return range(*[ev(a, env) for a in e.args])
+        raise KeyError(type(e).__name__)
+    out: set = set()
+    found = False
+    try:
+        for tl in tok_loops:
+            for c in ast.walk(tl):
+                if not (isinstance(c, ast.Call) and isinstance(c.func, ast.Attribute) and isinstance(c.func.value, ast.Name) and c.func.value.id == set_name and c.args):
+                    continue
+                # enclosing inner for loops (over ranges of the token's lines)
+                loops = []
+                a = parent(c)
+                while a is not None and a is not tl:
+                    if isinstance(a, ast.For) and isinstance(a.target, ast.Name):
+                        loops.append(a)
+                    a = parent(a)
+                envs = [{}]
+                for lp in reversed(loops):
+                    envs = [{**env, lp.target.id: v} for env in envs for v in ev(lp.iter, env)]
+                for env in envs:
+                    v = ev(c.args[0], env)
+                    found = True
+                    if c.func.attr == "add":
+                        out.add(v)
+                    elif c.func.attr == "update":
+                        out |= set(v)
+                    else:
+                        return None
+    except (KeyError, TypeError):
+        return None
+    return out if found else None
+
+
 # ------------------------------------------------------------------------------------------------ R11.6
 def _r11_6(prog: Program, res: Result) -> None:
     """_do_rewrite re-indents the lines of replacement code and exempts the lines that begin inside a string literal (R11.2).
@@ -322,6 +372,22 @@ def _r11_6(prog: Program, res: Result) -> None:
                             in_else = any(x is sc for x in ast.walk(a.orelse))
                             guarded = in_else if isinstance(t.ops[0], ast.In) else not in_else
                     a = parent(a)
+                if guarded:
+                    # WHICH lines: for a string token from line s to line e (1-based, tokenize), the 0-based indexes of the lines that END
+                    # inside it are s-1 .. e-2.  The set tested here is evaluated for s=2, e=5 (a small interpreter for range / add / update
+                    # over token.start[0], token.end[0] and the loop variable) and compared with {1, 2, 3}.
+                    set_name = None
+                    a2 = parent(sc)
+                    while a2 is not None and a2 is not comp:
+                        if isinstance(a2, ast.IfExp) and isinstance(a2.test, ast.Compare) and isinstance(a2.test.comparators[0], ast.Name):
+                            set_name = a2.test.comparators[0].id
+                        a2 = parent(a2)
+                    got = _lines_put_in(tok_loops, set_name, 2, 5)
+                    if got is not None and got != {1, 2, 3}:
+                        res.bad("R11.6", fn.loc(sc), fn.fq, f"{short(sc, 60)} # trailing blanks of re-indented code lines",
+                                f"for a literal from line 2 to line 5 the lines exempt from stripping are {sorted(got)} (0-based), the lines that END inside it are [1, 2, 3]: "
+                                + ("the first line of the literal is stripped of its trailing blanks" if 1 not in got else "the exemption is shifted"))
+                        continue
                 res.decide(guarded, "R11.6", fn.loc(sc), fn.fq, f"{short(sc, 60)} # trailing blanks of re-indented code lines",
                            "not applied to lines that end inside a string literal" if guarded else
                            "every line of the replacement code is stripped of trailing blanks, also the lines that END inside a multi-line string literal: blanks at the end of "
